@@ -417,6 +417,7 @@ theorem sstep_abs {f : Nat} {st st' : XSt α} {op : XOp α} {o : Obs α} (hx : x
   | append i ys => exact wrap i (fun it => .chain it (.src ys)) (fun t => t.chainS (.evs ys)) (fun _ => rfl) hx
   | map i g => exact wrap i (.map g) (SIt.mapS g) (fun _ => rfl) hx
   | filter i p => exact wrap i (.filter p) (SIt.filterS p) (fun _ => rfl) hx
+  | skipBad i e => exact wrap i (fun _ => .src [.error e]) (fun _ => .evs [.error e]) (fun _ => rfl) hx
   | nextAttr i =>
     simp only [xstep] at hx
     simp only [sstep]
